@@ -321,6 +321,9 @@ def run(ctx):
     ctx.rule("R7", "charge = sum of the core charges - number of electrons, as values (accessors evaluated on symbols)", "a sign slip in a setter: assigning the charge stores an electron count that gives back another charge")
     check_charge_arithmetic(ctx, "R7")
     check_natom_value(ctx, "R1")
+    # all of the above rests on the attrs validators running on every construction and assignment: no function
+    # reachable from the API may switch them off for the process (the interpreter-wide setter clause C16-R5)
+    ctx.borrow("c16", {"R5": "R8"})
 
 
 def check_charge_arithmetic(ctx, rid):
